@@ -445,6 +445,28 @@ func c06(r *engine.Report, p *engine.Program) {
 			"from the SuspectedDuplicate != 0 edge, with the edges stored.Epoch == ri.SuspectedDuplicate removed, no store of epoch/sequence is reachable",
 			"a duplicate notice can rewrite the stored epoch/sequence of its origin although the stored epoch is not the suspected one (e.g. >=): a late notice from an old run rewinds the record, after which stale updates of the old run are accepted and relayed")
 	}
+	// R4b each queued message is written to the neighbour once: in protoWriter no Send is reachable
+	// from a Send without first taking the next message from WriteChan
+	if pw := p.Func("(*netceptor.connInfo).protoWriter"); pw != nil {
+		var sends []ssa.Instruction
+		for _, ci := range engine.CallsIn(pw) {
+			if ci.Common().IsInvoke() && ci.Common().Method.Name() == "Send" {
+				sends = append(sends, ci)
+			}
+		}
+		ok := len(sends) == 1
+		if len(sends) >= 1 {
+			for _, s0 := range sends {
+				if hit := engine.Reach(pw, s0, nil, func(in ssa.Instruction) bool { _, isSel := in.(*ssa.Select); return isSel }, func(in ssa.Instruction) bool { return isOneOf(in, sends) }); hit != nil {
+					ok = false
+				}
+			}
+		}
+		r.Check("R4-relay", "protoWriter: a queued message is handed to the session exactly once", pw.Pos(), ok,
+			"one Send call per message taken from WriteChan; no Send is reachable from a Send without the next receive", "a message can be written to the neighbour's session twice (e.g. a retry after an error that was reported although the datagram went out): a relayed update reaches that neighbour more than once")
+	} else {
+		r.Broken("protoWriter not found")
+	}
 	// R7 the picture of an origin is never forgotten: no entry of knownNodeInfo is deleted (a
 	// delayed older update arriving afterwards would be accepted as first contact)
 	{
